@@ -542,10 +542,11 @@ impl Tokens
 			}
 			BaseToken::StringLiteral =>
 			{
-				format!(
-					"<{base_token:?} src={:?} />",
-					get_source().trim_matches('"')
-				)
+				// Strip the delimiters only, not an escaped quote next to them.
+				let quoted = get_source();
+				let inner = quoted.strip_prefix('"').unwrap_or(quoted);
+				let inner = inner.strip_suffix('"').unwrap_or(inner);
+				format!("<{base_token:?} src={:?} />", inner)
 			}
 			_ => format!("<{base_token:?} />"),
 		}
